@@ -1,6 +1,8 @@
 #![allow(dead_code)]
 mod base;
 mod c01;
+mod c19;
+mod editor;
 mod c12;
 mod c16;
 mod c13;
@@ -23,6 +25,10 @@ fn main() {
     let rest = &args[2..].to_vec();
     match args[1].as_str() {
         "c01" => c01::run(rest),
+        "c19" => c19::run(rest),
+        "c10" => editor::run(rest),
+        "c17" => editor::run_update(rest),
+        "c10x" => editor::run_xparty(rest),
         "c12" => c12::run(rest),
         "c16" => c16::run(rest),
         "c13" => c13::run(rest),
